@@ -178,6 +178,17 @@ func (x *Exec) libCall(fr *Frame, st *State, key string, callee *ssa.Function, a
 				}
 			}
 		}
+	case "sort.Strings", "sort.Ints", "sort.Float64s", "slices.Sort", "slices.SortFunc", "slices.SortStableFunc", "slices.Reverse",
+		"slices.Insert", "slices.Delete", "slices.DeleteFunc", "slices.Compact", "slices.CompactFunc", "slices.Replace":
+		// in-place library operations on a slice: its element array changes, nothing else;
+		// the result (if any) is unconstrained
+		if ms, ok := sliceOpMods(x.curCall); ok {
+			for _, m := range ms {
+				x.havocKeyCall(st, m.key, m.t)
+			}
+			x.trust("in-place slice library operations (sort.Strings, slices.Sort*, slices.Reverse, slices.Insert/Delete/Compact/Replace) are modelled as a frame only: the element arrays of that element type may change, nothing else")
+			return x.freshOfType(st, rt, "sliceop"), true
+		}
 	case "container/heap.Push", "container/heap.Pop", "container/heap.Remove", "container/heap.Fix", "container/heap.Init":
 		// coarse frame model: the operation rearranges the heap's slice (through the
 		// concrete type's Swap/Push/Pop methods) and may update fields of its elements;
@@ -564,7 +575,11 @@ func (x *Exec) libMods(key string, cc *ssa.CallCommon) ([]modTarget, bool) {
 					return nil, true
 				}
 				k, tt, _ := storeKey(cc.Args[0])
-				return []modTarget{{key: k, t: tt}}, true
+				mt := modTarget{key: k, t: tt}
+				if f := topField(cc.Args[0]); f >= 0 {
+					mt.fields = map[int]bool{f: true}
+				}
+				return []modTarget{mt}, true
 			}
 		}
 	}
@@ -584,6 +599,11 @@ func (x *Exec) libMods(key string, cc *ssa.CallCommon) ([]modTarget, bool) {
 		return nil, true
 	case "container/heap.Push", "container/heap.Pop", "container/heap.Remove", "container/heap.Fix", "container/heap.Init":
 		if ms, ok := heapOpMods(cc); ok {
+			return ms, true
+		}
+	case "sort.Strings", "sort.Ints", "sort.Float64s", "slices.Sort", "slices.SortFunc", "slices.SortStableFunc", "slices.Reverse",
+		"slices.Insert", "slices.Delete", "slices.DeleteFunc", "slices.Compact", "slices.CompactFunc", "slices.Replace":
+		if ms, ok := sliceOpMods(cc); ok {
 			return ms, true
 		}
 	case "sort.Slice", "sort.SliceStable":
@@ -621,4 +641,16 @@ func heapOpMods(cc *ssa.CallCommon) ([]modTarget, bool) {
 		ms = append(ms, modTarget{key: hk, t: ht})
 	}
 	return ms, true
+}
+
+// sliceOpMods: the element array key of the slice a library operation works on in place.
+func sliceOpMods(cc *ssa.CallCommon) ([]modTarget, bool) {
+	if cc == nil || len(cc.Args) == 0 {
+		return nil, false
+	}
+	sl, ok := cc.Args[0].Type().Underlying().(*types.Slice)
+	if !ok {
+		return nil, false
+	}
+	return []modTarget{{key: heapKeySlice(sl.Elem()), t: sl.Elem()}}, true
 }
